@@ -235,11 +235,40 @@ def check(fb, ctx):
                 inner = strip(inner.get("else")) if inner.get("else") else None
         node = strip(node.get("else")) if node.get("else") else None
     want = {"contains_v3_3": "DATALOG_3_3", "contains_scopes": "DATALOG_3_1", "contains_v3_1": "DATALOG_3_1", "contains_check_all": "DATALOG_3_1"}
-    ctx.check(guards == want, "VERSION", "each feature flag is refused under every lower declared version", "VERSION|check_compatibility", f"refusing guards found: {guards}; expected {want}", f"{cb['file']}:{cb['line']}")
+    # shape-independent decision: abstract evaluation of check_compatibility over the whole finite domain (4 declared versions x 16
+    # flag combinations) against the specification - Err iff (3.3 content and version < 3.3) or (3.1 content and version < 3.1)
+    consts = {}
+    for m_ in re.finditer(r"pub const (MIN_SCHEMA_VERSION|MAX_SCHEMA_VERSION|DATALOG_3_[123]): u32 = (\d+);", open(os.path.join(os.environ.get("VERIF_REPO", "/repo"), "biscuit-auth/src/token/mod.rs")).read()):
+        consts[m_.group(1)] = int(m_.group(2))
+    table_ok, bad_cell, unknown = None, None, None
+    if len(consts) == 5 and p_version:
+        import itertools
+        table_ok = True
+        flags_ = ["contains_scopes", "contains_v3_1", "contains_check_all", "contains_v3_3"]
+        for ver in range(consts["MIN_SCHEMA_VERSION"], consts["MAX_SCHEMA_VERSION"] + 1):
+            for bits in itertools.product([False, True], repeat=4):
+                env = {list(p_version)[0]: ver}
+                env.update({"self." + f_: b_ for f_, b_ in zip(flags_, bits)})
+                try:
+                    got_ = hirq.eval_pure(ch["body"], env, consts)
+                except hirq.Unknown as e_:
+                    table_ok, unknown = None, str(e_)
+                    break
+                fl_ = dict(zip(flags_, bits))
+                want_ = "Err" if (fl_["contains_v3_3"] and ver < consts["DATALOG_3_3"]) or ((fl_["contains_scopes"] or fl_["contains_v3_1"] or fl_["contains_check_all"]) and ver < consts["DATALOG_3_1"]) else "Ok"
+                if got_ != want_:
+                    table_ok, bad_cell = False, (ver, {k_: v_ for k_, v_ in fl_.items() if v_}, got_, want_)
+                    break
+            if table_ok is not True:
+                break
+    if table_ok is None:      # a construct the evaluator does not know: fall back to the structural reading of the if-chain
+        ctx.check(guards == want, "VERSION", "each feature flag is refused under every lower declared version", "VERSION|check_compatibility", f"refusing guards found: {guards}; expected {want} (abstract evaluation gave up on `{unknown}`)", f"{cb['file']}:{cb['line']}")
+    else:
+        ctx.check(table_ok, "VERSION", "each feature flag is refused under every lower declared version (64 cells)", "VERSION|check_compatibility", f"declared version {bad_cell[0] if bad_cell else '?'} with content {bad_cell[1] if bad_cell else '?'}: check_compatibility returns {bad_cell[2] if bad_cell else '?'}, the specification requires {bad_cell[3] if bad_cell else '?'}", f"{cb['file']}:{cb['line']}")
     # the 3.3 guard must not be nested under `version >= 3.1` (i.e. it is the first test or independent)
     c0 = strip(top["cond"]) if isinstance(top, dict) and top.get("k") == "if" else {}
     first_flags = [z["name"] for z in find_all(c0, lambda z: z.get("k") == "field")]
-    ctx.check("contains_v3_3" in first_flags, "VERSION", "3.3 content is tested for every declared version below 3.3", "VERSION|v3_3-first", "the contains_v3_3 test is only reached for some declared versions", f"{cb['file']}:{cb['line']}")
+    ctx.check(table_ok is True or "contains_v3_3" in first_flags, "VERSION", "3.3 content is tested for every declared version below 3.3", "VERSION|v3_3-first", "the contains_v3_3 test is only reached for some declared versions", f"{cb['file']}:{cb['line']}")
     # ---- GATE
     for fn in ("biscuit_auth::format::convert::proto_block_to_token_block", "biscuit_auth::format::convert::proto_snapshot_block_to_token_block"):
         b = fb.body(fn)
@@ -268,7 +297,7 @@ def check(fb, ctx):
     ctx.check(okm, "THIRDPARTY", "third-party blocks declare at least 3.2", "THIRDPARTY|create_block", "create_block must set block.version = max(DATALOG_3_2, block.version)", f"{cb2['file']}:{cb2['line']}")
     # every path from token bytes to evaluation goes through the loader
     bl = fb.body("biscuit_auth::token::Biscuit::block")
-    ctx.check(len(mirq.calls_matching(fb, bl, r"convert::proto_block_to_token_block$")) == 2, "GATE", "Biscuit::block converts through proto_block_to_token_block", "GATE|Biscuit::block", "block accessor does not go through the gated loader", f"{bl['file']}:{bl['line']}")
+    ctx.check(len(mirq.calls_matching(fb, bl, r"convert::proto_block_to_token_block$")) >= 1 and not mirq.aggregates(bl, r"token::block::Block$"), "GATE", "Biscuit::block converts through proto_block_to_token_block", "GATE|Biscuit::block", "block accessor does not go through the gated loader", f"{bl['file']}:{bl['line']}")
     # ---- SIGVER (shared)
     chain.signature_version_rules(fb, ctx)
     # builders declare the detected version
